@@ -121,9 +121,10 @@ const (
 	modeTxnCommit        // operations inside one write transaction, committed
 	modeTxnAbort         // ... aborted
 	modeInHandler        // operations issued from inside a request handler (the request is the snapshot)
+	modeManagedEach      // every operation in a managed transaction of its own (Router.Updates), committed
 )
 
-var modeNames = [...]string{"direct", "one-txn-commit", "one-txn-abort", "inside-handler"}
+var modeNames = [...]string{"direct", "one-txn-commit", "one-txn-abort", "inside-handler", "one-managed-transaction-per-operation"}
 
 // Case is a replayable sequential case.
 type Case struct {
@@ -333,6 +334,21 @@ func evalCase0(cs Case) (class, msg string) {
 				}
 			}
 			takeRouterSnaps(len(cs.Ops))
+		case modeManagedEach:
+			// consecutive committed managed transactions: what one leaves behind must not let the next one
+			// touch the state published in between
+			for i, o := range cs.Ops {
+				takeRouterSnaps(i)
+				f.Updates(func(txn *fox.Txn) error { applyW(f, txn, txn, o, 2+i); return nil })
+				if !recheck(fmt.Sprintf("operation %d (%s) in a managed transaction", i, o)) {
+					return
+				}
+			}
+			takeRouterSnaps(len(cs.Ops))
+			f.Handle("GET", "/later", hookHandler(9), fx.WithVer(9))
+			if !recheck("a later Handle(GET /later)") {
+				return
+			}
 		case modeTxnCommit, modeTxnAbort:
 			takeRouterSnaps(0)
 			txn := f.Txn(true)
@@ -458,7 +474,7 @@ func runSeq(c *mc.Ctx, r *mc.Result, poolName string) {
 		maxLen = 2
 	}
 	sd := seeds()
-	r.Bounds["sequential."+poolName] = fmt.Sprintf("patterns %v: %d seed states x all operation sequences of <=%d over %d operations x {direct (Router.Iter and read-only Txn snapshots at every position), one write transaction committed/aborted (Txn.Snapshot or Txn.Iter at each single position, router snapshots before), issued from inside a request handler}; every snapshot re-read after every later operation and ending; final state compared with the snapshot-free twin", pool.Patterns, len(sd), maxLen, len(alpha))
+	r.Bounds["sequential."+poolName] = fmt.Sprintf("patterns %v: %d seed states x all operation sequences of <=%d over %d operations x {direct (Router.Iter and read-only Txn snapshots at every position), one write transaction committed/aborted (Txn.Snapshot or Txn.Iter at each single position, router snapshots before), issued from inside a request handler, one committed managed transaction per operation}; every snapshot re-read after every later operation and ending; final state compared with the snapshot-free twin", pool.Patterns, len(sd), maxLen, len(alpha))
 	idx := 0
 	var ops []wop
 	stopped := false
@@ -479,7 +495,7 @@ func runSeq(c *mc.Ctx, r *mc.Result, poolName string) {
 					return
 				}
 				var cases []Case
-				cases = append(cases, Case{Pool: poolName, Seed: seed, Ops: ops, Mode: modeDirect}, Case{Pool: poolName, Seed: seed, Ops: ops, Mode: modeInHandler})
+				cases = append(cases, Case{Pool: poolName, Seed: seed, Ops: ops, Mode: modeDirect}, Case{Pool: poolName, Seed: seed, Ops: ops, Mode: modeInHandler}, Case{Pool: poolName, Seed: seed, Ops: ops, Mode: modeManagedEach})
 				for _, mode := range []int{modeTxnCommit, modeTxnAbort} {
 					cases = append(cases, Case{Pool: poolName, Seed: seed, Ops: ops, Mode: mode, SnapKind: snapNone})
 					for pos := 0; pos <= len(ops); pos++ {
